@@ -218,6 +218,31 @@ def part_constants(ctx, rng, work, events, meta, quick):
             orig = const_values(c0 if name.startswith("defaults") else c1)
             events.append({"k": "const", "ok": True, "same": bool(orig == base)})
             meta.append({"part": "constants", "source": name, "order": "as written", "diff": [k for k in orig if orig[k] != base.get(k)]})
+        # the same file through the set-up functions (fresh start and restart): the constants they return are those of the file
+        npts = data.get("npts", [256, 512, 32, 128])
+        if int(np.prod(npts)) <= 20000:
+            import warnings
+            from pygyro.initialisation.setups import setupCylindricalGrid, setupFromFile
+            from harness import h5emu
+            h5emu.install()
+            fold = os.path.join(work, "setup_%d" % len(events))
+            os.makedirs(fold)
+            for how in ("setupCylindricalGrid", "setupFromFile"):
+                try:
+                    with warnings.catch_warnings():
+                        warnings.simplefilter("ignore")
+                        if how == "setupCylindricalGrid":
+                            g, cc, _ = setupCylindricalGrid(layout="v_parallel", constantFile=p0)
+                            g.writeH5Dataset(fold, 0)
+                            open(os.path.join(fold, "initParams.json"), "w").write(text)
+                        else:
+                            g, cc, _ = setupFromFile(fold)
+                    got = const_values(cc)
+                    events.append({"k": "const", "ok": True, "same": bool(got == base)})
+                    meta.append({"part": "constants", "source": name, "order": "through " + how, "diff": [k for k in base if base[k] != got.get(k)]})
+                except Exception as ex:
+                    events.append({"k": "const", "ok": False, "same": False, "err": "%s: %s" % (type(ex).__name__, ex)})
+                    meta.append({"part": "constants", "source": name, "order": "through " + how})
         perms = [list(reversed(keys))] + [rng.sample(keys, len(keys)) for _ in range(nperm)]
         if len(keys) <= 5:
             perms = [list(p) for p in itertools.permutations(keys)]
